@@ -13,6 +13,7 @@ import (
 func init() {
 	verifHarnesses["VerifHarness_C17_setdesired"] = VerifHarness_C17_setdesired
 	verifHarnesses["VerifHarness_C17_fleet"] = VerifHarness_C17_fleet
+	verifHarnesses["VerifHarness_C17_after_delete"] = VerifHarness_C17_after_delete
 	verifHarnesses["VerifHarness_C18"] = VerifHarness_C18
 	verifHarnesses["VerifHarness_C19"] = VerifHarness_C19
 }
@@ -314,4 +315,40 @@ func VerifHarness_C19() {
 		verifReachIf("C19.failed-midway", allowed)
 	}
 	verifReachIf("C19.refused", verifNot(allowed))
+}
+
+
+// VerifHarness_C17_after_delete: a scale-up that follows node removals in the
+// same run (no Refresh in between) still sets exactly current + d, where
+// current is the ASG's desired capacity at call time.
+// shape: [instances, nodes removed]
+func VerifHarness_C17_after_delete() {
+	I, K := verifShape(0), verifShape(1)
+	w := newAWSWorld(0, int64(I)+6, int64(I), I, cloudprovider.AWSNodeGroupConfig{})
+	var nodes []*v1.Node
+	for k := 0; k < K; k++ {
+		n := &v1.Node{}
+		n.Name = "n" + strconv.Itoa(k)
+		n.Spec.ProviderID = "aws:///az/i-" + strconv.Itoa(k)
+		if k > 0 && verifChoice("node"+strconv.Itoa(k)+".foreign", 2) == 1 {
+			n.Spec.ProviderID = "aws:///az/i-foreign"
+		}
+		nodes = append(nodes, n)
+	}
+	w.AS.termFailAt = verifChoice("terminateFailAt", K+1)
+	_ = w.ng.DeleteNodes(nodes...)
+	d := verifInt("d", 1, 4)
+	mark := len(w.J.Calls)
+	err := w.ng.IncreaseSize(d)
+	n := 0
+	for _, e := range w.J.Calls[mark:] {
+		if e.Kind == "SetDesiredCapacity" {
+			n++
+			verifAssert("C17.after-delete-sets-current-plus-d", e.N == e.Prev+d)
+			if e.Prev < int64(I) {
+				verifReach("C17.scale-up-after-removal")
+			}
+		}
+	}
+	verifAssert("C17.after-delete-one-call", n == 1 && err == nil)
 }
